@@ -26,6 +26,7 @@ CONSTANTS MaxBlocks,      \* 1..3
           CfiLayouts,     \* subset of {"none","proc_all","proc_each","proc_rs"}
           Isa,            \* "x64" | "ia32" | "arm64": instruction sizes of the rendered module
           WithScopes,     \* BOOLEAN: generate register_insert(AllBlocksScope(ENTRY), ..) requests
+          Fmts,           \* file formats: subset of {"elf", "pe"}; a PE shape registers its first and last code blocks as safe exception handlers
           WholeOnly,      \* BOOLEAN: requests are whole-block deletions (and insertions at offset 0) only
           Leads,          \* set of numbers of uncovered filler bytes in front of the first block
           DropFnTables,   \* BOOLEAN subset: function-less modules may lack the three function tables
@@ -126,7 +127,7 @@ MkBlock(i, nb, tpl, tgtIdx, layout, endSym, annMode, annAt, cl, noSym, al, ld) =
 
 ShapeParams ==
   {p \in [nb : 1..MaxBlocks, tpl : [1..MaxBlocks -> Templates], tgt : 1..MaxBlocks,
-          layout : FnLayouts, es : SUBSET (1..MaxBlocks), ns : SUBSET (1..MaxBlocks), am : AnnModes, cl : CfiLayouts, al : AlignOpts, xd : ExtraData, dft : DropFnTables, ld : Leads,
+          layout : FnLayouts, es : SUBSET (1..MaxBlocks), ns : SUBSET (1..MaxBlocks), am : AnnModes, cl : CfiLayouts, al : AlignOpts, xd : ExtraData, dft : DropFnTables, ld : Leads, fmt : Fmts,
           annAt : (1..MaxBlocks) \X (0..3)] :
      /\ \A i \in (p.nb + 1)..MaxBlocks : p.tpl[i] = CHOOSE x \in Templates : TRUE
      /\ p.tgt <= p.nb
@@ -152,7 +153,8 @@ DataSection(tgtIdx) ==
                  syms |-> <<"dd">>, esyms |-> <<>>, fn |-> "", entry |-> FALSE,
                  ann |-> << <<1, "comments", "bi", "dc">> >>, cfi |-> <<>>, align |-> 0, lead |-> 0]>>]
 MkShape(p) ==
-  [isa |-> Isa, fmt |-> "elf", drop_fn_tables |-> p.dft,
+  [isa |-> Isa, fmt |-> p.fmt, drop_fn_tables |-> p.dft,
+   seh |-> IF p.fmt = "pe" THEN SetToSeq({i \in {1, p.nb} : ~IsData(p.tpl[i])}) ELSE <<>>,
    sections |-> <<[name |-> ".text",
                    blocks |-> [i \in 1..p.nb |->
                        MkBlock(i, p.nb, p.tpl[i], p.tgt, p.layout, i \in p.es, p.am, p.annAt, p.cl, i \in p.ns, p.al, p.ld)]]>>
